@@ -106,9 +106,9 @@ theorem kinv_recordInst (s : St) (g i : Nat) (y : G) (x : Inst) (h : KInv s)
           simp [List.getElem?_modify, hx]
         exact inv_forget { y with insts := y.insts.modify i fun z => { z with st := .recorded } } i
           { x with st := .recorded } hxi (h0.chain r.gen _ hy0) hlast (Or.inr rfl)
-      refine ⟨hci, ?_, ?_, ?_, ?_, h0.nn⟩
+      refine ⟨hci, ?_, ?_, ?_, ?_⟩
       rotate_left 3
-      · intro k' r' hk'
+      · intro k' r' hk' hce
         by_cases hkk : k' = y.key
         · subst hkk
           simp at hk'
@@ -121,9 +121,9 @@ theorem kinv_recordInst (s : St) (g i : Nat) (y : G) (x : Inst) (h : KInv s)
               split
               · rfl
               · split <;> rfl
-          rw [hf]; exact h0.fn y.key r hk0
+          rw [hf]; exact h0.exFn y.key r hk0 (Or.inl (by simp [hcur]))
         · simp [hkk] at hk'
-          exact h0.fn k' r' hk'
+          exact h0.exFn k' r' hk' hce
       · intro k' r' hk'
         by_cases hkk : k' = y.key
         · subst hkk
@@ -193,10 +193,13 @@ theorem kinv_recordInst (s : St) (g i : Nat) (y : G) (x : Inst) (h : KInv s)
           exact h0.curExited k' r' j z hk' hc he hz
     · exact h0
 
-theorem kinv_step (s s' : St) (e : Ev) (h : KInv s) (hs : step s e = some s')
-    (hn : ∀ k, e ≠ .nilnext k) : KInv s' := by
+theorem kinv_step (s s' : St) (e : Ev) (h : KInv s) (hs : step s e = some s') : KInv s' := by
   cases e with
-  | nilnext k => exact absurd rfl (hn k)
+  | nilnext k =>
+    simp only [step] at hs
+    split at hs
+    · simp at hs; subst hs; exact kinv_congr (s := s) rfl rfl h
+    · simp at hs
   | config c =>
     simp only [step] at hs
     split at hs
@@ -349,25 +352,10 @@ theorem kinv_step (s s' : St) (e : Ev) (h : KInv s) (hs : step s e = some s')
 theorem kinv_init : KInv ({} : St) :=
   ⟨fun g y hy => by simp at hy, fun k r h => by simp [St.key, look] at h,
    fun k r i y h => by simp [St.key, look] at h, fun k r i y h => by simp [St.key, look] at h,
-   fun k r h => by simp [St.key, look] at h, rfl⟩
+   fun k r h => by simp [St.key, look] at h⟩
 
-/-- no constructor is told to return a nil `Routine` in this event list -/
-def NoNil (es : List Ev) : Prop := ∀ e, e ∈ es → ∀ k, e ≠ .nilnext k
-
-theorem kinv_run (s s' : St) (es : List Ev) (h : KInv s) (hn : NoNil es) (hr : model.run s es = some s') :
-    KInv s' := by
-  induction es generalizing s with
-  | nil => simp [OLTS.run] at hr; subst hr; exact h
-  | cons e es ih =>
-    simp only [OLTS.run] at hr
-    cases hst : model.step s e with
-    | none => simp [hst] at hr
-    | some s1 =>
-      simp [hst] at hr
-      exact ih s1 (kinv_step s s1 e h hst (hn e (by simp))) (fun e' he' => hn e' (by simp [he'])) hr
-
-theorem kinv_reachable (es : List Ev) (s : St) (hn : NoNil es) (hr : model.run model.init es = some s) : KInv s :=
-  kinv_run model.init s es kinv_init hn hr
+theorem kinv_reachable (s : St) (h : model.Reachable s) : KInv s :=
+  model.invariant KInv kinv_init (fun s e s' hi hs => kinv_step s s' e hi hs) s h
 
 /-- the routine function of the instance has been decided on / is executing -/
 def IS.active : IS → Bool
